@@ -65,7 +65,8 @@ COQ_TARGETS = ['theories/Netlist/SpecHarness.vo', 'theories/Sim/FastModelHarness
                'theories/Sim/CLimbHarness.vo', 'theories/Sim/CEmitHarness.vo', 'theories/Sim/CEmitHash.vo']
 TRUSTED = ['Sim/CLimb.v `limbs_to_Z` / `limbs_ok` + the per-builder statements in Props/C02.v (what a limb array denotes)',
            'Sim/CLimb.v and Sim/FastModel.v are hand transliterations of the emitters (tied by translated fragments: mask '
-           'tables, emitted expression texts, assignment templates, _limbs/_makemask/_getarglimb, concat loop-test order; '
+           'tables, emitted expression texts, assignment templates, memory-store key, _limbs/_makemask/_getarglimb, '
+           'concat loop-test order, hash-map bucket count, AST digests of _build_add/_sub/_mul and of the C hash-map helper text; '
            'and behaviourally on every run)',
            'gcc -O0 and the x86-64 `mulq` inline asm implement C99 uint64_t arithmetic / a 64x64->128 multiply '
            '(the C text is modelled per builder; its compilation is exercised only behaviourally)']
@@ -80,7 +81,9 @@ ASSUMPTIONS = [
     'sanctioned difference: CompiledSimulation does not apply a non-zero default_value to memories; such '
     '(design, default) pairs are excluded from the Compiled comparison only',
     'FastModel: every select has a non-empty op_param and every register has an `r` net (Block.sanity_check)',
-    'the C hash map (create_hash_map/insert/lookup) is modelled as a finite map and exercised only behaviourally',
+    'the C hash map is modelled in Sim/CEmitHash.v (buckets, chains, in-place update / new head node, default array) '
+    'and proved to refine the finite map of Sim/CEmitModel.v; its malloc/memcpy/pointer layer is abstracted to lists '
+    '(a chain = the list of its nodes from the head)',
     'CEmitModel applies the `@` inserts in net-list order; the C code iterates a Python set (the generator only '
     'builds write ports with provably distinct addresses)',
     'Coq-side evaluation (FastModel / Sem) is restricted to blocks with at most MAX_COQ_NETS nets; larger '
@@ -996,6 +999,9 @@ def run(ctx):
                         regmap=regmap, memmap=memmap, inputs=inputs, dflt=dflt, has_mem=has_mem,
                         ops=list(d.ops), renamed=getattr(d, 'renamed', None) if variant == 'pre' else None)
             case['py'] = run_python_sims(case)
+            if 'fast_obj' in case:                # keep the flags, not the generated program (memory)
+                case['src_flags'] = fast_elision_from_source(case)
+                del case['fast_obj'], case['fast_src']
             cases.append(case)
     pyrtl.reset_working_block()
     mark('build+python-sims')
@@ -1334,7 +1340,7 @@ def compare_case(ctx, case):
             ctx.model_mismatch('pyrtl.Simulation and Sim/FastModel.v disagree although fast_wfb holds (%s %d %s)' % (
                 case['family'], case['design'], case['variant']), replay_dict(ctx, case))
         if not isinstance(fast, str):
-            src_flags = fast_elision_from_source(case)
+            src_flags = case.get('src_flags', [])
             for n, a, b in zip(order, src_flags, model_flags):
                 ctx.count('fast_mask', '%s:%s' % (n.op, {0: 'masked', 1: 'elided', 2: 'n/a'}.get(a, 'unparsed')))
                 if a != b:
